@@ -18,6 +18,31 @@ pub struct Case {
     /// names of the top-level types whose bindings must coincide
     pub targets: Vec<String>,
     pub tagdef: String,
+    /// the definitions the targets use live in a second module `Lib` and are imported
+    #[serde(default)]
+    pub split: bool,
+}
+
+/// name of the assignment `def` (first word, without a parameter list)
+fn def_name(def: &str) -> String {
+    def.split(|c: char| c.is_whitespace() || c == '{').next().unwrap_or("").to_string()
+}
+
+/// source texts of the sugared side
+fn sugared_sources(c: &Case) -> Vec<String> {
+    if !c.split {
+        return vec![module("M", &c.tagdef, false, &c.sugared.join("\n"))];
+    }
+    let (own, lib): (Vec<&String>, Vec<&String>) = c.sugared.iter().partition(|d| c.targets.contains(&def_name(d)));
+    let names: Vec<String> = lib.iter().map(|d| def_name(d)).collect();
+    let tags = match c.tagdef.as_str() {
+        "" => String::new(),
+        t => format!("{t} TAGS"),
+    };
+    vec![
+        format!("M DEFINITIONS {tags} ::= BEGIN\nIMPORTS {} FROM Lib;\n{}\nEND\n", names.join(", "), own.iter().map(|s| s.as_str()).collect::<Vec<_>>().join("\n")),
+        module("Lib", &c.tagdef, false, &lib.iter().map(|s| s.as_str()).collect::<Vec<_>>().join("\n")),
+    ]
 }
 
 fn perms<T: Clone>(v: &[T]) -> Vec<Vec<T>> {
@@ -58,7 +83,7 @@ impl Prop for C09 {
         "C09"
     }
     fn rule(&self) -> String {
-        "pairs (sugared module, hand-expanded module) built by the model: (a) value references through chains of 1..4 references and named numbers of a referenced type as constraint endpoints of type assignments and components; (b) COMPONENTS OF at every position of a component list of length <=3, with/without an extension marker in the referencing and in the referenced type, two levels deep, SEQUENCE and SET; (c) parameterized types with 1..3 type/value parameters instantiated 1..3 times; (d) selection of every alternative of a 1..3-alternative CHOICE; (e) a fixed-type field of an object class; every pair × every assignment of the names involved to the pools {sorts-before, sorts-after} relative to the referencing name × every textual order of the (<=4) assignments (quick: rotations and reversal) × tagging default {AUTOMATIC, EXPLICIT}. Oracle: differential — Ok/Err class and warning count agree and the syn projection (minus docs) of every target type and of the anonymous items it hoists is identical. Non-trivial: both modules compiled and were compared.".into()
+        "pairs (sugared module, hand-expanded module) built by the model: (a) value references through chains of 1..4 references and named numbers of a referenced type as constraint endpoints of type assignments and components; (b) COMPONENTS OF at every position of a component list of length <=3, with/without an extension marker in the referencing and in the referenced type, two levels deep, SEQUENCE and SET; (c) parameterized types with 1..3 type/value parameters instantiated 1..3 times; (d) selection of every alternative of a 1..3-alternative CHOICE; (e) a fixed-type field of an object class (INTEGER, BOOLEAN, constrained OCTET STRING, type reference); further forms: value references as string / bit-string sizes, in alternatives, OF elements, nested components and extensible ranges; parameterized SEQUENCE OF, parameter used twice with a constrained argument, value parameters as SIZE and as both range ends, inline constructed and reference arguments, instantiation as a component; selection of alternatives whose type is a reference, tagged, or SEQUENCE OF reference; each also with the referenced definitions in a second module and imported; every pair × every assignment of the names involved to the pools {sorts-before, sorts-after} relative to the referencing name × every textual order of the (<=4) assignments (quick: rotations and reversal) × tagging default {AUTOMATIC, EXPLICIT}. Oracle: differential — Ok/Err class and warning count agree and the syn projection (minus docs) of every target type and of the anonymous items it hoists is identical. Non-trivial: both modules compiled and were compared.".into()
     }
     fn enumerate(&self, tier: Tier, _seed: u64) -> Vec<Case> {
         let mut out: Vec<Case> = vec![];
@@ -76,7 +101,11 @@ impl Prop for C09 {
             };
             for tagdef in ["AUTOMATIC", "EXPLICIT"] {
                 for (k, o) in orders.iter().enumerate() {
-                    out.push(Case { sugar: sugar.into(), label: format!("{label}|order={}", if k == 0 { "as-written" } else if k == 1 { "reversed" } else { "other" }), sugared: o.clone(), expanded: expanded.clone(), targets: targets.iter().map(|s| s.to_string()).collect(), tagdef: tagdef.into() });
+                    out.push(Case { sugar: sugar.into(), label: format!("{label}|order={}", if k == 0 { "as-written" } else if k == 1 { "reversed" } else { "other" }), sugared: o.clone(), expanded: expanded.clone(), targets: targets.iter().map(|s| s.to_string()).collect(), tagdef: tagdef.into(), split: false });
+                    // the same with the referenced definitions in a module of their own (as written and reversed only)
+                    if k <= 1 && sugared.len() > targets.len() {
+                        out.push(Case { sugar: sugar.into(), label: format!("{label}|imported|order={}", if k == 0 { "as-written" } else { "reversed" }), sugared: o.clone(), expanded: expanded.clone(), targets: targets.iter().map(|s| s.to_string()).collect(), tagdef: tagdef.into(), split: true });
+                    }
                 }
             }
         };
@@ -97,6 +126,12 @@ impl Prop for C09 {
                     ("component", format!("Mid ::= SEQUENCE {{ f INTEGER (0..{used}), g OCTET STRING (SIZE ({used})) }}"), "Mid ::= SEQUENCE { f INTEGER (0..9), g OCTET STRING (SIZE (9)) }".to_string()),
                     ("size", format!("Mid ::= SEQUENCE (SIZE (1..{used})) OF BOOLEAN"), "Mid ::= SEQUENCE (SIZE (1..9)) OF BOOLEAN".to_string()),
                     ("union", format!("Mid ::= INTEGER (0 | {used}..12)"), "Mid ::= INTEGER (0 | 9..12)".to_string()),
+                    ("string-size", format!("Mid ::= UTF8String (SIZE (1..{used}))"), "Mid ::= UTF8String (SIZE (1..9))".to_string()),
+                    ("bits-size", format!("Mid ::= BIT STRING (SIZE ({used}))"), "Mid ::= BIT STRING (SIZE (9))".to_string()),
+                    ("alternative", format!("Mid ::= CHOICE {{ f INTEGER (0..{used}), g NULL }}"), "Mid ::= CHOICE { f INTEGER (0..9), g NULL }".to_string()),
+                    ("of-element", format!("Mid ::= SEQUENCE OF INTEGER (0..{used})"), "Mid ::= SEQUENCE OF INTEGER (0..9)".to_string()),
+                    ("nested-component", format!("Mid ::= SEQUENCE {{ n SEQUENCE {{ f INTEGER ({used}..99) }} }}"), "Mid ::= SEQUENCE { n SEQUENCE { f INTEGER (9..99) } }".to_string()),
+                    ("extensible", format!("Mid ::= INTEGER (0..{used}, ...)"), "Mid ::= INTEGER (0..9, ...)".to_string()),
                 ] {
                     let mut s = defs.clone();
                     s.push(sug);
@@ -185,6 +220,21 @@ impl Prop for C09 {
             let p3 = format!("{pool} {{ T, U, INTEGER:max }} ::= CHOICE {{ a T, b U, c INTEGER (0..max) }}");
             push("parameterized", format!("parameterized|names={pool}|params=3|inst=1"), vec![p3.clone(), format!("Mid ::= {pool} {{ BOOLEAN, NULL, 9 }}")], vec!["Mid ::= CHOICE { a BOOLEAN, b NULL, c INTEGER (0..9) }".into()], vec!["Mid"]);
         }
+        for pool in ["Aaa", "Zzz"] {
+            let of = format!("{pool} {{ T }} ::= SEQUENCE OF T");
+            push("parameterized", format!("parameterized|names={pool}|form=of"), vec![of.clone(), format!("Mid ::= {pool} {{ BOOLEAN }}")], vec!["Mid ::= SEQUENCE OF BOOLEAN".into()], vec!["Mid"]);
+            let twice = format!("{pool} {{ T }} ::= SEQUENCE {{ v T OPTIONAL, w SEQUENCE OF T }}");
+            push("parameterized", format!("parameterized|names={pool}|form=used-twice+constrained-arg"), vec![twice.clone(), format!("Mid ::= {pool} {{ INTEGER (0..7) }}")], vec!["Mid ::= SEQUENCE { v INTEGER (0..7) OPTIONAL, w SEQUENCE OF INTEGER (0..7) }".into()], vec!["Mid"]);
+            let sz = format!("{pool} {{ INTEGER:n }} ::= OCTET STRING (SIZE (n))");
+            push("parameterized", format!("parameterized|names={pool}|form=size-value"), vec![sz.clone(), format!("Mid ::= {pool} {{ 4 }}")], vec!["Mid ::= OCTET STRING (SIZE (4))".into()], vec!["Mid"]);
+            let rg = format!("{pool} {{ INTEGER:lo, INTEGER:hi }} ::= INTEGER (lo..hi)");
+            push("parameterized", format!("parameterized|names={pool}|form=two-values"), vec![rg.clone(), format!("Mid ::= {pool} {{ 1, 5 }}"), format!("Mie ::= {pool} {{ -3, 300 }}")], vec!["Mid ::= INTEGER (1..5)".into(), "Mie ::= INTEGER (-3..300)".into()], vec!["Mid", "Mie"]);
+            let p1 = format!("{pool} {{ T }} ::= SEQUENCE {{ v T, n INTEGER }}");
+            push("parameterized", format!("parameterized|names={pool}|form=inline-constructed-arg"), vec![p1.clone(), format!("Mid ::= {pool} {{ SEQUENCE {{ a BOOLEAN }} }}")], vec!["Mid ::= SEQUENCE { v SEQUENCE { a BOOLEAN }, n INTEGER }".into()], vec!["Mid"]);
+            push("parameterized", format!("parameterized|names={pool}|form=reference-arg"), vec![p1.clone(), "Tgt ::= INTEGER (0..7)".into(), format!("Mid ::= {pool} {{ Tgt }}")], vec!["Tgt ::= INTEGER (0..7)".into(), "Mid ::= SEQUENCE { v Tgt, n INTEGER }".into()], vec!["Mid"]);
+            let comp = format!("{pool} {{ T }} ::= SEQUENCE {{ v T, n INTEGER }}");
+            push("parameterized", format!("parameterized|names={pool}|form=as-component"), vec![comp.clone(), format!("Mid ::= SEQUENCE {{ c {pool} {{ BOOLEAN }}, d NULL }}")], vec!["Mid ::= SEQUENCE { c SEQUENCE { v BOOLEAN, n INTEGER }, d NULL }".into()], vec!["Mid"]);
+        }
         // ---- (d) selection types
         for pool in ["Aaa", "Zzz"] {
             let alts = [("a", "INTEGER (0..7)"), ("b", "BOOLEAN"), ("c", "SEQUENCE { x NULL }")];
@@ -196,7 +246,22 @@ impl Prop for C09 {
                 }
             }
         }
+        for pool in ["Aaa", "Zzz"] {
+            let ch = format!("{pool} ::= CHOICE {{ a Tgt, b [3] BOOLEAN, c SEQUENCE OF Tgt }}");
+            let tgt = "Tgt ::= INTEGER (0..7)".to_string();
+            push("selection", format!("selection|names={pool}|alt-type=reference"), vec![tgt.clone(), ch.clone(), format!("Mid ::= a < {pool}")], vec![tgt.clone(), ch.clone(), "Mid ::= Tgt".into()], vec!["Mid"]);
+            push("selection", format!("selection|names={pool}|alt-type=tagged"), vec![tgt.clone(), ch.clone(), format!("Mid ::= b < {pool}")], vec![tgt.clone(), ch.clone(), "Mid ::= [3] BOOLEAN".into()], vec!["Mid"]);
+            push("selection", format!("selection|names={pool}|alt-type=of-reference"), vec![tgt.clone(), ch.clone(), format!("Mid ::= c < {pool}")], vec![tgt.clone(), ch.clone(), "Mid ::= SEQUENCE OF Tgt".into()], vec!["Mid"]);
+        }
         // ---- (e) fixed-type field of an object class
+        for pool in ["AAA", "ZZZ"] {
+            let cl = format!("{pool} ::= CLASS {{ &id INTEGER (0..255) UNIQUE, &flag BOOLEAN, &code OCTET STRING (SIZE (2)), &ref Tgt, &Type }}");
+            let tgt = "Tgt ::= INTEGER (0..7)".to_string();
+            for (f, t) in [("flag", "BOOLEAN"), ("code", "OCTET STRING (SIZE (2))"), ("ref", "Tgt")] {
+                push("class-field", format!("class-field|names={pool}|field={f}|ctx=assign"), vec![tgt.clone(), cl.clone(), format!("Mid ::= {pool}.&{f}")], vec![tgt.clone(), cl.clone(), format!("Mid ::= {t}")], vec!["Mid"]);
+                push("class-field", format!("class-field|names={pool}|field={f}|ctx=component"), vec![tgt.clone(), cl.clone(), format!("Mid ::= SEQUENCE {{ f {pool}.&{f}, g BOOLEAN }}")], vec![tgt.clone(), cl.clone(), format!("Mid ::= SEQUENCE {{ f {t}, g BOOLEAN }}")], vec!["Mid"]);
+            }
+        }
         for pool in ["AAA", "ZZZ"] {
             let cl = format!("{pool} ::= CLASS {{ &id INTEGER (0..255) UNIQUE, &Type }}");
             push("class-field", format!("class-field|names={pool}|ctx=assign"), vec![cl.clone(), format!("Mid ::= {pool}.&id")], vec![cl.clone(), "Mid ::= INTEGER (0..255)".into()], vec!["Mid"]);
@@ -205,9 +270,10 @@ impl Prop for C09 {
         out
     }
     fn check(&self, c: &Case) -> CaseResult {
-        let s_src = module("M", &c.tagdef, false, &c.sugared.join("\n"));
+        let s_srcs = sugared_sources(c);
+        let s_src = s_srcs.join("\n=====\n");
         let e_src = module("M", &c.tagdef, false, &c.expanded.join("\n"));
-        let (so, eo) = (compile1(&s_src), compile1(&e_src));
+        let (so, eo) = (compile_rasn(&s_srcs, &Cfg::default()), compile1(&e_src));
         // key without the textual order and name pool (those are what must not matter); they go into the detail
         let base_label: String = c.label.split('|').filter(|p| !p.starts_with("order=") && !p.starts_with("names=")).collect::<Vec<_>>().join("|");
         let order = c.label.split('|').find(|p| p.starts_with("order=")).unwrap_or("");
@@ -233,7 +299,7 @@ impl Prop for C09 {
             (Ok(a), Ok(b)) => (a.without_docs(), b.without_docs()),
             _ => return CaseResult { discs: vec![Disc::new(format!("{kb}|kind=unparsable"), ctx)], nontrivial: false, outcome: "unparsable".into(), skipped: None },
         };
-        let (sm, em) = match (sp.only(), ep.only()) {
+        let (sm, em) = match (if c.split { sp.module("m") } else { sp.only() }, ep.only()) {
             (Some(a), Some(b)) => (a, b),
             _ => return CaseResult::skip("module-count"),
         };
